@@ -27,7 +27,8 @@ def run(tier="quick", seed=0, replay=None):
     if replay:
         print(open(replay).read())
         return 1
-    core.lean_stage(chk, "C11", extra_props=["C11b"])
+    core.lean_stage(chk, "C11")
+    core.soft_stage(chk, ["C11b"], "ring-buffer bookkeeping regenerated from sliding_window.py = Model/SlidingWindow.lean")
     from harness import cover
     from harness import fingerprint
     fingerprint.direct(chk, ['ixai/utils/tracker/sliding_window.py'])
@@ -99,6 +100,44 @@ def run(tier="quick", seed=0, replay=None):
                                           f"mean/var/std = {t.mean}/{t.var}/{t.std}, the last {len(last)} values have {m}/{var}/{math.sqrt(var)}",
                                           {"k": k, "vs": [str(x) for x in vs[:i + 1]], "read_every": every})
                             break
+    # streams in which some supplied items are rejected (the update raises, the caller catches it and goes on): the statistics are
+    # those of the last min(n, k) values that were accepted — a rejected item must leave no trace
+    for k in range(1, (5 if quick else 8) + 1):
+        for rep in range(chk.count(3, 10)):
+            n = chk.rng.randint(k, 4 * k + 2)
+            t = SlidingWindowTracker(k)
+            accepted, script = [], []
+            for i in range(n):
+                if chk.rng.random() < 0.3:
+                    bad = chk.rng.choice(["abc", [1.0, 2.0], {"v": 1}, object(), "1e", (3, 4)])
+                    script.append(repr(bad)[:20])
+                    try:
+                        t.update(bad)
+                    except Exception:
+                        pass
+                    else:
+                        accepted.append(None)     # accepted after all (NumPy stored it): outside this scenario
+                        break
+                else:
+                    v = float(chk.rng.randint(-9, 9))
+                    script.append(v)
+                    t.update(v)
+                    accepted.append(v)
+                if accepted and None not in accepted:
+                    last = accepted[-k:]
+                    m = sum(last) / len(last)
+                    var = sum((x - m) ** 2 for x in last) / len(last)
+                    try:
+                        got = (t.mean, t.var, t.std)
+                    except Exception as ex:
+                        got = (core.err_kind(ex), None, None)
+                    if not (close(got[0], m) and close(got[1], var) and close(got[2], math.sqrt(var))):
+                        chk.violation("window-after-rejected-update", f"SlidingWindowTracker({k}) on the stream {script} (non-numeric items raise and are "
+                                      f"skipped by the caller): mean/var/std = {got[0]}/{got[1]}/{got[2]}, the last {len(last)} accepted values "
+                                      f"{last} have {m}/{var}/{math.sqrt(var)}", {"k": k, "stream": [str(x) for x in script]})
+                        break
+            chk.case({"k": k, "stream_with_rejected_items": [str(x) for x in script]}, nontrivial=len(accepted) > 1, sample=False)
+            chk.stat("streams_with_rejected_items")
     if core.driver_available():
         try:
             answers = core.run_driver(reqs)
